@@ -170,6 +170,10 @@ func (s *session) recover() (err error) {
 			return errors.SetFd(err, fd)
 		}
 
+		// What the records committed so far have set; rec accumulates it.
+		hasRec, comparer, journalNum, prevJournalNum, nextFileNum, seqNum :=
+			rec.hasRec, rec.comparer, rec.journalNum, rec.prevJournalNum, rec.nextFileNum, rec.seqNum
+
 		err = rec.decode(r)
 		if err == nil {
 			// save compact pointers
@@ -184,6 +188,11 @@ func (s *session) recover() (err error) {
 				return
 			}
 			s.logf("manifest error: %v (skipped)", errors.SetFd(err, fd))
+			// A record torn between two chunks has been decoded in part:
+			// forget its journal, sequence and file numbers along with
+			// its tables.
+			rec.hasRec, rec.comparer, rec.journalNum, rec.prevJournalNum, rec.nextFileNum, rec.seqNum =
+				hasRec, comparer, journalNum, prevJournalNum, nextFileNum, seqNum
 		}
 		rec.resetCompPtrs()
 		rec.resetAddedTables()
